@@ -84,6 +84,7 @@ struct Args {
     replay: Option<String>,
     child: Option<ChildArgs>,
     cases: Option<u64>,
+    threads_child: Option<String>,
 }
 
 #[derive(Clone)]
@@ -116,6 +117,7 @@ fn parse_args() -> Args {
     let mut replay = None;
     let mut cases = None;
     let mut child: Option<ChildArgs> = None;
+    let mut threads_child = None;
     let mut i = 0;
     let getv = |i: &mut usize| -> String {
         *i += 1;
@@ -128,6 +130,7 @@ fn parse_args() -> Args {
             "--seed" => seed = getv(&mut i).parse::<i64>().unwrap_or(0) as u64,
             "--replay" => replay = Some(getv(&mut i)),
             "--cases" => cases = getv(&mut i).parse().ok(),
+            "--threads-child" => threads_child = Some(getv(&mut i)),
             "--child" => {
                 // shard,of,start,deadline_s,n_cases,progress,out,skip
                 let v = getv(&mut i);
@@ -161,6 +164,7 @@ fn parse_args() -> Args {
         replay,
         child,
         cases,
+        threads_child,
     }
 }
 
@@ -399,6 +403,51 @@ fn run_children(
     total
 }
 
+/// Thread mode under a supervisor: the workers run in a child process that
+/// hands its statistics back through a file.  If that process dies (abort
+/// from a non-unwinding panic, SIGSEGV, ...) the whole run is repeated in
+/// children mode, whose shards attribute every crash to the case in flight.
+fn run_threads_supervised(
+    prop: &dyn Prop,
+    a: &Args,
+    n: u64,
+    cap_s: u64,
+) -> Stats {
+    let exe = std::env::current_exe().unwrap();
+    let dir = format!("{}/harness/target", verif_dir());
+    let _ = std::fs::create_dir_all(&dir);
+    let out = format!("{dir}/threads-{}-{}.json", prop.id(), std::process::id());
+    let _ = std::fs::remove_file(&out);
+    let status = std::process::Command::new(&exe)
+        .arg(prop.id())
+        .arg(a.tier.name())
+        .arg("--seed")
+        .arg(format!("{}", a.seed as i64))
+        .arg("--cases")
+        .arg(format!("{n}"))
+        .arg("--threads-child")
+        .arg(&out)
+        .status()
+        .expect("spawn thread-mode child");
+    let got: Option<Value> = std::fs::read(&out)
+        .ok()
+        .and_then(|b| serde_json::from_slice(&b).ok());
+    let _ = std::fs::remove_file(&out);
+    if let (true, Some(v)) = (status.success(), &got) {
+        return Stats::from_json(v);
+    }
+    use std::os::unix::process::ExitStatusExt;
+    eprintln!(
+        "[supervisor] thread-mode process died (signal {:?}, code {:?}); \
+         repeating the run in sharded child processes to attribute the crash",
+        status.signal(),
+        status.code()
+    );
+    let mut st = run_children(prop, n, a.seed, a.tier, cap_s);
+    st.inc("thread_mode_process_died_rerun_in_children");
+    st
+}
+
 struct Known {
     signature: String,
     what: String,
@@ -467,14 +516,29 @@ fn main() {
 
     let n = a.cases.unwrap_or_else(|| prop.n_cases(a.tier));
     let cap = prop.time_cap_s(a.tier);
+    if let Some(out) = &a.threads_child {
+        let st = run_threads(
+            prop,
+            n,
+            a.seed,
+            a.tier,
+            t0 + Duration::from_secs(cap),
+        );
+        let tmp = format!("{out}.tmp");
+        std::fs::write(&tmp, serde_json::to_vec(&st.to_json()).unwrap())
+            .unwrap();
+        std::fs::rename(&tmp, out).unwrap();
+        std::process::exit(0);
+    }
     let mut st = match prop.mode() {
-        Mode::Threads => run_threads(
+        Mode::Threads if std::env::var("FV_INPROCESS").is_ok() => run_threads(
             prop,
             n,
             a.seed,
             a.tier,
             t0 + Duration::from_secs(cap),
         ),
+        Mode::Threads => run_threads_supervised(prop, &a, n, cap),
         Mode::Children => run_children(prop, n, a.seed, a.tier, cap),
     };
     prop.extra_stage(&mut st, a.tier, a.seed);
